@@ -245,9 +245,14 @@ def d5_cascade(repo):
     k1 = f"{CA}::Calibrator._set_samplers_seeds"
     r = repo.get_function(k1)
     src = ast.unparse(r[2]).replace(" ", "") if r else ""
+    top = [ast.unparse(st).replace(" ", "") for st in (r[2].body if r else [])]
     groups.append(_grp("scheduler-seeded-from-calibrator-seed", "proved" if
-                       "self.scheduler.random_state=self.random_state" in src else "unknown",
-                       "self.scheduler.random_state = self.random_state", k1))
+                       "self.scheduler.random_state=self.random_state" in top else
+                       ("refuted" if "self.scheduler.random_state=self.random_state" in src else "unknown"),
+                       "self.scheduler.random_state = self.random_state is an UNCONDITIONAL statement of "
+                       "_set_samplers_seeds (every seed value, 0 included, is cascaded)"
+                       if "self.scheduler.random_state=self.random_state" in top else
+                       "the cascade assignment is conditional / missing", k1))
     for cls, path in (("BaseScheduler", "black_it/schedulers/base.py"), ("RLScheduler", "black_it/schedulers/rl/rl_scheduler.py")):
         k = f"{path}::{cls}._set_random_state"
         r = repo.get_function(k)
@@ -268,6 +273,55 @@ def d5_cascade(repo):
     return groups
 
 
+def d6_generator_ownership(repo):
+    """The generator object is re-created on every reseed: nothing that captured the OLD generator object may be kept
+    on self (a cached scipy frozen distribution, a bound method, ...), and no attribute may hold a numpy VIEW of another
+    attribute (pickling turns a view into an independent array - resume would diverge)."""
+    groups = []
+    for cname, ci in sorted(repo.classes.items()):
+        if not repo.is_subclass(cname, "BaseSeedable") or cname == "BaseSeedable":
+            continue
+        bad, views, n = [], [], 0
+        for mname, fn in ci.methods.items():
+            tainted = set()
+            for _ in range(2):
+                for node in ast.walk(fn):
+                    if isinstance(node, ast.Assign):
+                        v = ast.unparse(node.value)
+                        uses_gen = "self.random_generator" in v and not v.startswith("self.random_generator.") \
+                            or any(isinstance(x, ast.Name) and x.id in tainted for x in ast.walk(node.value))
+                        if ast.unparse(node.value) == "self.random_generator":
+                            uses_gen = True
+                        for t in node.targets:
+                            if isinstance(t, ast.Attribute) and isinstance(t.value, ast.Name) and t.value.id != "self" \
+                                    and "self.random_generator" == v:
+                                tainted.add(t.value.id)          # local_obj.attr = self.random_generator
+                            if isinstance(t, ast.Name) and uses_gen and v == "self.random_generator":
+                                tainted.add(t.id)
+            for node in ast.walk(fn):
+                if isinstance(node, ast.Assign):
+                    for t in node.targets:
+                        root = t
+                        while isinstance(root, ast.Subscript):
+                            root = root.value
+                        if isinstance(root, ast.Attribute) and isinstance(root.value, ast.Name) and root.value.id == "self":
+                            n += 1
+                            if any(isinstance(x, ast.Name) and x.id in tainted for x in ast.walk(node.value)) or \
+                                    ast.unparse(node.value) == "self.random_generator":
+                                bad.append({"line": node.lineno, "store": ast.unparse(node)[:90]})
+                            v = node.value
+                            if isinstance(v, ast.Subscript) and isinstance(v.slice, ast.Slice) and \
+                                    ast.unparse(v.value).startswith("self.") and isinstance(t, ast.Attribute):
+                                views.append({"line": node.lineno, "store": ast.unparse(node)[:90]})
+        key = f"{ci.module}::{cname}"
+        if n:
+            groups.append(_grp("old-generator-never-kept-on-self", "refuted" if bad else "proved",
+                               f"{bad}" if bad else f"{n} attribute stores examined", key, {"sites": bad} if bad else None))
+            groups.append(_grp("no-attribute-is-a-view-of-another", "unknown" if views else "proved",
+                               f"{views}" if views else f"{n} attribute stores examined", key))
+    return groups
+
+
 def run(repo, reg, prop, tier):
-    return d1_sources(repo) + d2_reset_completeness(repo) + d3_seeds_in_parent(repo) + d4_config_independence(repo) + \
+    return d6_generator_ownership(repo) + d1_sources(repo) + d2_reset_completeness(repo) + d3_seeds_in_parent(repo) + d4_config_independence(repo) + \
         d5_cascade(repo)
